@@ -20,9 +20,9 @@ def run(sid):
                    VERIF_JOBS=os.environ.get("SEED_JOBS", "4"), VERIF_NO_REPLAY_CONFIRM="1")
         res = {}
         for c in meta["detected_by"]:
-            chk = c.split(":")[0]
-            r = subprocess.run(["/verif/check", chk], cwd="/verif", env=env, capture_output=True, text=True)
-            res[chk] = (r.returncode, sum(1 for ln in r.stdout.splitlines() if ln.startswith("VIOLATION")))
+            chk, tier = (c.split(":") + ["quick"])[:2]
+            r = subprocess.run(["/verif/check", chk, "--tier", tier], cwd="/verif", env=env, capture_output=True, text=True)
+            res[c] = (r.returncode, sum(1 for ln in r.stdout.splitlines() if ln.startswith("VIOLATION")))
         ok = all(v[0] == 1 and v[1] > 0 for v in res.values())
         return sid, "detected" if ok else "NOT-DETECTED", res
     finally:
